@@ -169,7 +169,7 @@ func printFnResult(r *FnResult, verbose bool, only string) int {
 		}
 	}
 	if r.Vacuity == "unsat" {
-		fmt.Println("   VACUOUS: assumptions are contradictory or no return is reachable")
+		fmt.Println("   VACUOUS: assumptions are contradictory or no return is reachable", r.VacuousAt)
 		bad++
 	}
 	return bad
